@@ -127,8 +127,8 @@ def _run_one(args):
         fired_tgt = res['fired'].get(tgt)
         # rules shared between properties (one necessary condition of several
         # properties): firing in the sharing property is not cross-fire
-        shares = {'C01': ('C19', 'C02'), 'C10': ('C08', 'C15'), 'C08': ('C10', 'C15', 'C19'), 'C15': ('C10', 'C08', 'C09', 'C16'), 'C19': ('C11', 'C08', 'C01'), 'C11': ('C19', 'C04', 'C12'),
-                  'C03': ('C06', 'C20'), 'C20': ('C03', 'C02'), 'C06': ('C03', 'C09', 'C05', 'C13', 'C12'), 'C12': ('C05', 'C08', 'C06'), 'C05': ('C06', 'C12'), 'C02': ('C16', 'C20'), 'C16': ('C02', 'C09', 'C15'), 'C09': ('C06', 'C15', 'C16'), 'C14': ('C13',), 'C13': ('C14', 'C06'), 'C17': ('C18',), 'C18': ('C17',)}
+        shares = {'C04': ('C05',), 'C01': ('C19', 'C02'), 'C10': ('C08', 'C15'), 'C08': ('C10', 'C15', 'C19'), 'C15': ('C10', 'C08', 'C09', 'C16'), 'C19': ('C11', 'C08', 'C01'), 'C11': ('C19', 'C04', 'C12'),
+                  'C03': ('C06', 'C20'), 'C20': ('C03', 'C02'), 'C06': ('C03', 'C09', 'C05', 'C13', 'C12'), 'C12': ('C05', 'C08', 'C06'), 'C05': ('C06', 'C12', 'C04'), 'C02': ('C16', 'C20'), 'C16': ('C02', 'C09', 'C15'), 'C09': ('C06', 'C15', 'C16'), 'C14': ('C13',), 'C13': ('C14', 'C06'), 'C17': ('C18',), 'C18': ('C17',)}
         allowed = set(m.get('also', [])) | set(shares.get(tgt, ()))
         for a in list(allowed):
             allowed |= set(shares.get(a, ()))       # a declared double break extends to the properties sharing that rule
